@@ -76,9 +76,13 @@ package keeper
 // C20 (epoch-end statistics of a task are computed from that task's own results): the power list stored for a task has
 // exactly one entry per operator that signed THIS task (nothing carried over from a task processed earlier in the same
 // epoch end), and the signed-operator list is the one collected for it.
+//@ func (*Keeper).GetTaskInfo
+//@   flag pure=IsHexAddress
+//@   ensures[C20.gti.found] (err == nil) <==> (info != nil)
+
 //@ func (EpochsHooksWrapper).AfterEpochEnd
 //@   flag noframe
-//@   flag pure=GetTaskStatisticalEpochEndAVSs,GroupTasksByIDAndAddress,GetAVSInfoByTaskAddress,GetOperatorOptedUSDValue,GetTaskInfo,Difference,GetAVSUSDValue,Logger,FormatUint
+//@   flag pure=GetTaskStatisticalEpochEndAVSs,GroupTasksByIDAndAddress,GetAVSInfoByTaskAddress,GetOperatorOptedUSDValue,Difference,GetAVSUSDValue,Logger,FormatUint
 //@   flag havoc=SetTaskInfo
 //@   before[C20.aee.pertask] SetTaskInfo requires arg_task != nil ==> arg_task.OperatorActivePower != nil &&
 //@        len(arg_task.OperatorActivePower.OperatorPowerList) == len(arg_task.SignedOperators)
